@@ -92,6 +92,29 @@ def run(ctx, rep) -> None:
                 cleared.add(c.args[0].value)
     rep.check(not (cleared & set(BUDGET_KEYS)), "C15.R3", "re-arm keeps the budget keys", f"cleared keys: {sorted(cleared)}", "src/stabilize/handlers/jump_to_stage/reset.py", rs.lineno, disc="cleared")
     rep.check("stage.context =" not in norm(rs) and "stage.context.clear()" not in norm(rs), "C15.R3", "re-arm never replaces the context", "", "src/stabilize/handlers/jump_to_stage/reset.py", rs.lineno, disc="replace")
+    # every task of a re-armed stage goes back to NOT_STARTED, whatever its status (REDIRECT, PAUSED, ... included): a task that
+    # keeps its old status is refused by StartTask in the next iteration and the stage stays RUNNING with an empty queue
+    from ..dom import conditions_at as _cat
+    from ..statuspred import status_set as _sset
+    tas = [a_ for a_ in ast.walk(rs) if isinstance(a_, ast.Assign) and norm(a_.targets[0]) == "task.status" and norm(a_.value) == "WorkflowStatus.NOT_STARTED"]
+    ok_t = bool(tas)
+    det_t = "task.status = NOT_STARTED for every task"
+    for a_ in tas:
+        covered = frozenset(T.members) if "T" in dir() else None
+        allst = frozenset(ctx.st.members)
+        cov = allst
+        for text, truth in _cat(rs, a_):
+            try:
+                ss = _sset(ast.parse(text, mode="eval").body, "task.status", ctx.st)
+            except SyntaxError:
+                ss = None
+            if ss is not None:
+                cov = cov & (ss if truth else allst - ss)
+        if cov != allst:
+            ok_t = False
+            det_t = f"only tasks in {sorted(cov)} are reset; a task in {sorted(allst - cov)[:4]} keeps its status"
+    rep.check(ok_t, "C15.R3", "re-arm resets every task of the stage", det_t if ok_t else det_t + ": e.g. the jumping task already marked REDIRECT (its CompleteTask was handled before the JumpToStage) survives the re-arm, "
+              "the next StartTask is ignored and the loop stalls", "src/stabilize/handlers/jump_to_stage/reset.py", tas[0].lineno if tas else rs.lineno, disc="reset-all-tasks")
     # removals by COMPUTED key in the re-arm helper: every key it can remove is one of the literal keys listed above
     dyn = []
     for n in ast.walk(rs):
